@@ -438,6 +438,17 @@ def main():
     }
     os.makedirs(os.path.join(VERIF, "evidence"), exist_ok=True)
     json.dump(ev, open(os.path.join(VERIF, "evidence", f"{pid}.json"), "w"), indent=1)
+    # disk: a clean run does not keep stream files beyond 200 MB (the thorough C09 stream writes 20 GB);
+    # replays carry their own failing input, so nothing a report points to is lost
+    if exit_code == 0:
+        for st in cfg["streams"]:
+            for fn in ("ops.txt", "impl.txt", "model.txt"):
+                f = os.path.join(wdir, st, fn)
+                try:
+                    if os.path.getsize(f) > 200 * 1024 * 1024:
+                        os.remove(f)
+                except OSError:
+                    pass
     status = "OK" if exit_code == 0 else "FAIL"
     print(f"{pid} {tier}: {status}  theorems {discharged}/{obligations}  cases {total_cases} "
           f"(non-trivial {total_nontrivial})  lines compared {total_lines}  wall {ev['wall_s']}s")
